@@ -83,6 +83,20 @@ def cases(np, pd):
     case('at new row', lambda: pd.DataFrame({'a': [1.0]}).at[0, 'a'])
     case('reset_index', lambda: df.reset_index(drop=True).index.tolist())
     case('concat index', lambda: pd.concat([pd.DataFrame({'a': [1]}), pd.DataFrame({'a': [2]})]).index.tolist())
+    case('cumsum', lambda: np.cumsum(np.array([1.0, 2.0, 4.0])))
+    case('argmax ties', lambda: int(np.argmax(np.array([1.0, 3.0, 3.0]))))
+    case('nanmean', lambda: np.nanmean(np.array([1.0, NAN, 3.0])))
+    case('median', lambda: [np.median(np.array([3.0, 1.0, 2.0])), np.median(np.array([3.0, 1.0, 2.0, 10.0]))])
+    case('count_nonzero', lambda: int(np.count_nonzero(np.array([True, False, True]))))
+    case('logical_and/not', lambda: [np.logical_and(np.array([True, False]), np.array([True, True])), np.logical_not(np.array([True, False]))])
+    case('append', lambda: np.append(np.array([1.0]), [2.0, 3.0]))
+    case('head/tail', lambda: [pd.Series([1, 2, 3]).head(2), pd.Series([1, 2, 3]).tail(2), pd.Series([1, 2, 3]).tail(0)])
+    case('idxmax/idxmin', lambda: [pd.Series([1.0, 5.0, 2.0], index=[7, 8, 9]).idxmax(), pd.Series([1.0, 5.0, 2.0], index=[7, 8, 9]).idxmin()])
+    case('nlargest', lambda: pd.Series([1.0, 5.0, 2.0]).nlargest(2))
+    case('series median/cumsum', lambda: [pd.Series([1.0, 5.0, 2.0]).median(), pd.Series([1.0, 5.0, 2.0]).cumsum()])
+    case('iterrows', lambda: [[l, r['a']] for l, r in pd.DataFrame({'a': [1.0, 2.0]}, index=[4, 6]).iterrows()])
+    case('itertuples', lambda: [list(t) for t in pd.DataFrame({'a': [1.0, 2.0], 'b': ['x', 'y']}, index=[4, 6]).itertuples()])
+    case('between', lambda: pd.Series([1.0, 5.0, 2.0]).between(2, 5))
     return out
 
 
